@@ -32,7 +32,8 @@ LEVEL_TEXT = ("Machine-checked: (1) compile_encodes_partial: for every well-form
               "well-formedness predicate, each find* walk/chain of XPath.cpp returns exactly the nodes of its axis in proximity "
               "order (13 axes); predicates_spec_partial / predicates_literal_spec: the predicate loop and the numeric-literal "
               "shortcut equal XPath 2.4 filtering; recycle_contract: every memoised conversion of a recyclable XObject is reset "
-              "unconditionally on the factory's recycle path (table regenerated from the source). The models are tied to the working tree by two translators and by replaying "
+              "unconditionally on the factory's recycle path; nodeset_builders_ordered: id() and every other node-set building "
+              "function fill their result with ordered, duplicate-rejecting inserts (tables regenerated from the source). The models are tied to the working tree by two translators and by replaying "
               "generated expressions, token soups, comparisons and evaluations on generated documents on the real library and on "
               "the compiled model; every implementation reply is also compared with the denotational specification evalS.")
 LEVEL_NOTE = ("Trusted: Lean kernel; axioms propext/Classical.choice/Quot.sound only; the hand transcription of the anchored C++ "
@@ -41,7 +42,7 @@ LEVEL_NOTE = ("Trusted: Lean kernel; axioms propext/Classical.choice/Quot.sound 
               "NumOps is abstract in the comparison theorem. Partial: Doc.WF is evaluated per document (not proved for every "
               "pre-order table); the compiler theorem does not cover unions, multi-step paths, predicates and function calls; the "
               "evaluator as a whole (evalM = evalS) is not a theorem - its axis and predicate components are; the function library "
-              "and EXSLT set functions are specified and tied by correspondence only; id(), the namespace axis with real namespace "
+              "and EXSLT set functions are specified and tied by correspondence only; key()/document()/current() (XSLT only), the namespace axis with real namespace "
               "nodes, xalan:evaluate, EXSLT math/string/common/dynamic, number->string of non-integers and result tree fragments "
               "are not modelled (design/C02.md section 7).")
 DESIGN_REF = "DESIGN.md section 5, C02; design/C02.md"
@@ -68,6 +69,7 @@ THEOREMS = [
     "XalanModel.Props.C02.axes_spec_preceding_partial",
     "XalanModel.Props.C02.axes_spec_partial",
     "XalanModel.Props.C02.recycle_contract",
+    "XalanModel.Props.C02.nodeset_builders_ordered",
 ]
 
 CORPUS_EXPR = [
@@ -125,6 +127,7 @@ def run(ctx):
     ctx.translate("c02_opcodes")
     ctx.translate("c02_flags")
     ctx.translate("c02_recycle")
+    ctx.translate("c02_nodeset_builders")
     ctx.lean("XalanModel.Props.C02", THEOREMS, extra_targets=["xm_c02"])
     model = ctx.exe("xm_c02")
     harness = common.build_harness("c02_xpath", ["c02_xpath.cpp"], flavor="hooks")
@@ -413,6 +416,9 @@ def compare_stream(ctx, r, harness, model, work):
 # evaluation: location paths over all axes, predicates, unions, functions, arithmetic
 
 EVAL_CORPUS = [
+    "id('i1')", "id('i3 i1')", "id('i2 i2')", "count(id('i1 i1 zz'))", "string(id('i3 i1'))", "name(id('i3  i2'))", "id(//@k)",
+    "id(//text())", "count(id(//@k | //text()))", "id(id('i2'))", "id(1)", "id('')", "count(id('i3 i2 i1 i3'))", "id('i2 i1')/@k",
+    "string(id('i4 i2'))", "local-name(id(concat('i3', ' ', 'i1')))", "count(set:distinct(id('i2 i1 i2')))",
     "(//a | //b)[last()]/preceding-sibling::*[1]", "(preceding::*)[1]", "(ancestor::* | preceding::*)[2]", "(//*/ancestor::*)[last()]",
     "(//c/preceding::* | //e)[position() < 3]/following::*[1]", "$na[2]/preceding::*[1]", "($na | $nb)[last()]/ancestor::*[1]",
     "$vt and $vn > 2", "$vs + $vn", "$vnan = $vnan", "$vbig > 9223372036854775807", "concat($vw, $ve, $vs)", "$vf or $na",
@@ -443,11 +449,44 @@ EVAL_CORPUS = [
 ]
 
 
-FIXED_DOC = ('<r xmlns:set="http://exslt.org/sets" xmlns:x="http://xml.apache.org/xalan" id="0"><a p="1">1<c>x</c></a><b>2</b><a q="7">3</a>tail<e/><b><c/><c/><c/></b></r>',
+FIXED_DOC = ('<!DOCTYPE r [<!ATTLIST a k ID #IMPLIED><!ATTLIST b k ID #IMPLIED><!ATTLIST c k ID #IMPLIED><!ATTLIST e k ID #IMPLIED>]>'
+             '<r xmlns:set="http://exslt.org/sets" xmlns:x="http://xml.apache.org/xalan" id="0"><a p="1">1<c>x</c></a><b>2</b><a q="7">3</a>tail<e/><b><c/><c/><c/></b></r>',
              [("r", "", "", -1), ("e", "r", "", 0), ("a", "id", "0", 1), ("e", "a", "", 1), ("a", "p", "1", 3), ("t", "", "1", 3),
               ("e", "c", "", 3), ("t", "", "x", 6), ("e", "b", "", 1), ("t", "", "2", 8), ("e", "a", "", 1), ("a", "q", "7", 10),
               ("t", "", "3", 10), ("t", "", "tail", 1), ("e", "e", "", 1), ("e", "b", "", 1), ("e", "c", "", 15), ("e", "c", "", 15),
               ("e", "c", "", 15)])
+
+
+def build_doc(tree, dtd_names=("r", "a", "b", "c", "e")):
+    """(xml, table) from nested tuples (name, [(attr, value)...], [children | text])"""
+    table = [("r", "", "", -1)]
+
+    def el(n, parent, top):
+        name, attrs, kids = n
+        me = len(table)
+        table.append(("e", name, "", parent))
+        x = "<" + name
+        if top:
+            x += ' xmlns:set="http://exslt.org/sets" xmlns:x="http://xml.apache.org/xalan"'
+        for a, v in attrs:
+            table.append(("a", a, v, me))
+            x += ' %s="%s"' % (a, v)
+        inner = ""
+        for k in kids:
+            if isinstance(k, str):
+                table.append(("t", "", k, me))
+                inner += k
+            else:
+                inner += el(k, me, False)
+        return x + (">" + inner + "</" + name + ">" if inner else "/>")
+    xml = el(tree, 0, True)
+    dtd = "<!DOCTYPE %s [%s]>" % (tree[0], "".join("<!ATTLIST %s k ID #IMPLIED>" % n for n in dtd_names))
+    return dtd + xml, table
+
+
+# a document with DTD-declared IDs: tokens out of document order, repeated, unknown; IDs referenced from text and attributes
+FIXED_ID_DOC = build_doc(("r", [], [("a", [("k", "i1")], ["i3 i1"]), ("b", [("k", "i2")], ["x"]), ("a", [("k", "i3"), ("p", "i4 i1")], ["i2"]),
+                                    ("c", [], ["i2 i2 zz"]), ("b", [("k", "i4"), ("p", "i1")], [("c", [("k", "i5")], ["i5 i4 i3"])])]))
 
 
 def classify_eval(text, iv, mv, sv, xml=""):
@@ -517,7 +556,12 @@ def eval_stream(ctx, r, harness, model, work):
             for t in EVAL_CORPUS:
                 for c in (0, 1, 3, 9, 11):
                     ec.append((t, c, None, xml, table))
-        elif si < 3:
+        elif si == 1:
+            xml, table = FIXED_ID_DOC
+            for t in EVAL_CORPUS:
+                for c in (0, 2, 9):
+                    ec.append((t, c, None, xml, table))
+        elif si < 4:
             for t in EVAL_CORPUS:
                 ec.append((t, 0, None, xml, table))
                 ec.append((t, 1, None, xml, table))
